@@ -35,12 +35,18 @@ PROPS = {
                  "module-level/method truth checks on the same expression objects, cache clears and evictions; a True "
                  "claim must hold on all models (solver) or all assignments (module level)", design_ref="DESIGN.md 5 C10"),
     "C11": _hist(4000, 150000, "frontends Solver and SolverCacheless; ops add/sat/eval/batch_eval/min/max/solution/"
-                 "is_true/simplify/downsize/branch plus weak-cache and LRU evictions, solver reuse on/off",
-                 design_ref="DESIGN.md 5 C11"),
+                 "is_true/simplify/downsize/branch plus weak-cache and LRU evictions, solver reuse on/off; 85 % of the runs "
+                 "use 2-8 bit variables with the enumeration reference, 15 % use 16-130 bit variables with an independent-Z3 "
+                 "reference (no mul/div there)",
+                 design_ref="DESIGN.md 5 C11", phases=[{"profile": "C11", "share": 0.85}, {"profile": "C11wide", "share": 0.15}]),
     "C12": _hist(3000, 100000, "SolverComposite with variable shapes whose constraints connect and disconnect child "
-                 "solvers; branch (copy-on-write), simplify, split, combine, merge", design_ref="DESIGN.md 5 C12"),
+                 "solvers; branch (copy-on-write), simplify, split, combine, merge; 10 % of the runs with 16-130 bit variables "
+                 "and an independent-Z3 reference", design_ref="DESIGN.md 5 C12",
+                 phases=[{"profile": "C12", "share": 0.9}, {"profile": "C12wide", "share": 0.1}]),
     "C14": _hist(3000, 80000, "trees of branched solvers of every exact frontend class, strictly interleaved ops, and "
-                 "probe sweeps over the untouched handles after every mutating op", design_ref="DESIGN.md 5 C14"),
+                 "probe sweeps over the untouched handles after every mutating op; 10 % of the runs with 16-130 bit variables "
+                 "and an independent-Z3 reference", design_ref="DESIGN.md 5 C14",
+                 phases=[{"profile": "C14", "share": 0.9}, {"profile": "C14wide", "share": 0.1}]),
     "C13": _hist(3000, 80000, "exact phase: SolverReplacement (default settings) and SolverHybrid (exact=None/True) against "
                  "the exact oracle, with histories biased to constraints that create replacements, contradicting/refining "
                  "adds, downsize, branch and pickling; approximate phase: SolverHybrid(exact=False / approximate_first), "
